@@ -40,6 +40,11 @@ class TreeRunner:
 
     def evaluate(self, rj):
         """rj: bridge 'load' answer -> dict(res, panic, panics, finds, paths)"""
+        if rj.get('engine_probe_mismatches') and not getattr(self.ck, 'handles_probes', False):
+            # the model of a compiled engine (automaton, regex set) is built from its description in the tree; the bridge
+            # found that the real object behaves differently, so nothing derived from this tree may count as a pass
+            what = sorted({m['what'] for m in rj['engine_probe_mismatches']})[0]
+            self.ck.inconclusive.append('a compiled engine inside %s is not the one its description says: %s' % (rj.get('display', '?')[:120], what))
         e = self.imp.expr(rj['expr'])
         ids = self.imp.identifiers(rj['idents'])
         ex = self.ex
